@@ -130,16 +130,58 @@ pub fn meta(args: &Args) -> Value {
     })
 }
 
+/// Hand-written programs with heap-allocated (boxed) variant values of one level in local
+/// scopes of dsp: direct, inside tuples / records, in helpers, in blocks, next to closures.
+/// (Nested constructions and recursive variants passed to a function leak on the unchanged
+/// tree: known finding C12-boxed-variants; the templates stay clear of both.)
+pub fn boxed_templates() -> Vec<String> {
+    let head = "type rec List = Nil | Cons(float, List)\ntype rec Opt = Non | Som(float)\nfn hd(l: List) -> float { match l { Nil => 0.0, Cons(h, t) => h } }\nfn get(o: Opt) -> float { match o { Non => 0.0, Som(v) => v } }\n";
+    let bodies = [
+        "fn dsp(){ let l = Cons(1.0, Nil)\n 1.0 }",
+        "fn dsp(){ let t = (Cons(1.0, Nil), 2.0)\n t.1 }",
+        "fn dsp(){ let t = (2.0, Cons(1.0, Nil))\n t.0 }",
+        "fn dsp(){ let t = {head = Cons(1.0, Nil), n = 2.0}\n t.n }",
+        "fn dsp(){ let t = {n = 2.0, opt = Som(3.0)}\n t.n + get(t.opt) }",
+        "fn mk(x){ let t = (Cons(x, Nil), 2.0)\n t.1 }\nfn dsp(){ mk(1.0) + mk(2.0) }",
+        "fn mk(x){ let t = {head = Cons(x, Nil), n = x}\n t.n }\nfn dsp(){ mk(now) }",
+        "fn dsp(){ let y = { let t = (Som(now), 1.0)\n get(t.0) }\n y }",
+        "fn dsp(){ let f = |x| x + 1.0\n let t = (f, Cons(1.0, Nil), 2.0)\n t.2 }",
+        "fn dsp(){ let a = Som(1.0)\n let b = Cons(2.0, Nil)\n let t = (a, b)\n get(t.0) }",
+        "fn dsp(){ let t = ((Som(1.0), 2.0), 3.0)\n t.1 }",
+        "fn dsp(){ let t = (Non, Nil, 1.0)\n t.2 }",
+        "fn dsp(){ let o = if (now > 2.0) Som(now) else Non\n get(o) }",
+    ];
+    bodies.iter().map(|b| format!("{head}{b}\n")).collect()
+}
+
 pub fn run(args: &Args, out: &mut Out) {
     let files = corpus_files(&args.repo);
     let ncorpus = files.len();
     let nmut = if args.thorough() { ncorpus * 4 } else { ncorpus / 2 };
     let ngen = args.cases(400, 10000);
+    let boxed = boxed_templates();
     drive(
         args,
         out,
-        ncorpus + nmut + ngen,
+        ncorpus + nmut + ngen + boxed.len(),
         |idx, rng| {
+            if idx >= ncorpus + nmut + ngen {
+                if args.q("boxed-values-moved-into-aggregate") && boxed[idx - (ncorpus + nmut + ngen)].contains("let t = (a, b)") {
+                    return None;
+                }
+                return Some(Case {
+                    src: boxed[idx - (ncorpus + nmut + ngen)].clone(),
+                    n: 64,
+                    input_seed: 1,
+                    finite_inputs: true,
+                    prog: None,
+                    expect: None,
+                    scheduler: false,
+                    path: None,
+                    origin: Some("template:boxed-variant".into()),
+                    split: None,
+                });
+            }
             if idx < ncorpus + nmut {
                 let f = if idx < ncorpus { &files[idx] } else { &files[rng.below(ncorpus.max(1))] };
                 let src = std::fs::read_to_string(f).ok()?;
